@@ -218,6 +218,173 @@ fn window_value(ws: &[(u64, u64)], mut i: u64) -> u64 {
 }
 
 // ------------------------------------------------------------------------------------------------
+// terminal state in front of a sequence under test (stream-driven parts)
+// ------------------------------------------------------------------------------------------------
+
+/// What the terminal looks like when the sequence under test arrives. A state can change which code path turns a number
+/// into a `char` (e.g. a font-relative interpretation of a character code), so the number tables are repeated per state.
+#[derive(Clone, Debug, Default, PartialEq, Eq, Hash, Serialize, Deserialize)]
+struct TermState {
+    /// font slot the custom font goes to; a slot > 0 is then selected with `CSI 0;slot SP D` (slot 0 is what a fresh caret uses)
+    slot: u8,
+    /// index into STATE_FONTS; 0 = no custom font (a selected slot then gets the engine's built-in page of that number)
+    font: u8,
+    /// the font arrives as a CTerm font DCS instead of Buffer::set_font
+    dcs: bool,
+    /// bit 0 ice colours (CSI ?33h), 1 insert mode (CSI 4h), 2 top/bottom margins (CSI 3;20r), 3 left/right margins (CSI ?69h, CSI 5;60s),
+    /// 4 origin mode (CSI ?6h), 5 buffer type Unicode
+    modes: u8,
+}
+
+/// (format as in FontCase::fmt, glyph count, glyph height, psf1 mode)
+const STATE_FONTS: &[(u8, u32, u8, u8)] = &[
+    (3, 256, 16, 0), // index 0 is "none"; entry unused
+    (3, 256, 16, 0),
+    (0, 512, 8, 1),
+    (1, 512, 8, 0),
+    (1, 0xD801, 1, 0),
+    (1, 0xDC00, 1, 0),
+    (1, 0xE000, 1, 0),
+    (1, 0x1_0000, 1, 0),
+    (1, 0x2_0000, 1, 0),
+];
+
+fn state_font_idx(st: &TermState) -> usize {
+    st.font as usize % STATE_FONTS.len()
+}
+
+fn state_slot(st: &TermState) -> usize {
+    (st.slot % 4) as usize
+}
+
+/// glyph count (`BitFont::length`) of the custom font the caret points at, 0 if none
+fn state_font_len(st: &TermState) -> u32 {
+    match state_font_idx(st) {
+        0 => 0,
+        f => STATE_FONTS[f].1,
+    }
+}
+
+fn state_class(st: &TermState) -> &'static str {
+    if state_font_len(st) > 0xD800 {
+        "big_font"
+    } else if state_font_idx(st) != 0 || state_slot(st) != 0 {
+        "font"
+    } else if st.modes & 0x3F != 0 {
+        "modes"
+    } else {
+        "fresh"
+    }
+}
+
+/// suffix of failure keys / abort classes: only a font whose glyph numbers reach the surrogate range is a different input class
+fn state_key(st: &TermState) -> &'static str {
+    if state_font_len(st) > 0xD800 {
+        "|state=big_font"
+    } else {
+        ""
+    }
+}
+
+fn state_font_bytes(f: usize) -> &'static [u8] {
+    static B: OnceLock<Vec<Vec<u8>>> = OnceLock::new();
+    &B.get_or_init(|| STATE_FONTS.iter().map(|&(fmt, glyphs, height, psf1_mode)| font_bytes(&FontCase { fmt, glyphs, height, via: 0, mul: 5, add: 3, psf1_mode })).collect())[f]
+}
+
+thread_local! {
+    /// parsed state fonts are handed from one case to the next (building 2^17 glyph entries per case would dominate the run)
+    static FONT_POOL: std::cell::RefCell<std::collections::HashMap<usize, BitFont>> = std::cell::RefCell::new(std::collections::HashMap::new());
+}
+
+fn state_mode_bytes(st: &TermState) -> Vec<u8> {
+    let mut v = Vec::new();
+    let slot = state_slot(st);
+    if slot != 0 {
+        v.extend(format!("\x1b[0;{slot} D").into_bytes());
+    }
+    for (bit, seq) in [(1u8, &b"\x1b[?33h"[..]), (2, b"\x1b[4h"), (4, b"\x1b[3;20r"), (8, b"\x1b[?69h\x1b[5;60s"), (16, b"\x1b[?6h")] {
+        if st.modes & bit != 0 {
+            v.extend(seq);
+        }
+    }
+    v
+}
+
+/// bring a fresh terminal into the state; returns a description of what was done
+fn state_apply(st: &TermState, parser: &mut ansi::Parser, buf: &mut Buffer, caret: &mut icy_engine::Caret) -> String {
+    let mut how = String::new();
+    if st.modes & 32 != 0 {
+        buf.buffer_type = icy_engine::BufferType::Unicode;
+        how.push_str("buffer type Unicode; ");
+    }
+    let f = state_font_idx(st);
+    let slot = state_slot(st);
+    if f != 0 {
+        let (fmt, glyphs, height, _) = STATE_FONTS[f];
+        if st.dcs {
+            let mut d = format!("\x1bPCTerm:Font:{slot}:").into_bytes();
+            d.extend(stream::b64(state_font_bytes(f)));
+            d.extend(b"\x1b\\");
+            feed(parser, buf, caret, &d);
+            how.push_str(&format!("{} font of {glyphs} glyphs (height {height}) sent as `ESC P CTerm:Font:{slot}:<base64> ESC \\`; ", FONT_FMT[fmt as usize]));
+        } else {
+            let font = FONT_POOL.with(|p| p.borrow_mut().remove(&f)).or_else(|| BitFont::from_bytes("state font", state_font_bytes(f)).ok());
+            if let Some(font) = font {
+                buf.set_font(slot, font);
+            }
+            how.push_str(&format!("{} font of {glyphs} glyphs (height {height}) put into slot {slot} with Buffer::set_font; ", FONT_FMT[fmt as usize]));
+        }
+    }
+    let m = state_mode_bytes(st);
+    if !m.is_empty() {
+        feed(parser, buf, caret, &m);
+        how.push_str(&format!("then \"{}\"; ", escape(&m)));
+    }
+    how
+}
+
+/// hand the parsed font back for the next case (only if it is still the one that was put there)
+fn state_release(st: &TermState, buf: &mut Buffer) {
+    let f = state_font_idx(st);
+    if f != 0 && !st.dcs {
+        if let Some(font) = buf.remove_font(state_slot(st)) {
+            if font.length as u32 == STATE_FONTS[f].1 && font.name == "state font" {
+                FONT_POOL.with(|p| p.borrow_mut().insert(f, font));
+            }
+        }
+    }
+}
+
+fn term_state(fresh_weight: u32) -> BoxedStrategy<TermState> {
+    let font = prop_oneof![3 => Just(0u8), 2 => 1u8..=3, 5 => 4u8..=8];
+    prop_oneof![
+        fresh_weight => Just(TermState::default()),
+        6 => (0u8..=3, font, prop::bool::weighted(0.012), prop_oneof![2 => Just(0u8), 2 => 0u8..64, 1 => Just(63u8)]).prop_map(|(slot, font, dcs, modes)| TermState { slot, font, dcs, modes }),
+    ]
+    .boxed()
+}
+
+/// states of the enumerated tables
+fn table_states() -> Vec<TermState> {
+    let st = |slot, font, dcs, modes| TermState { slot, font, dcs, modes };
+    vec![
+        st(1, 0, false, 0),  // built-in page 1 selected
+        st(2, 1, false, 0),  // 256-glyph custom font selected
+        st(1, 2, false, 0),  // 512-glyph PSF1
+        st(3, 3, false, 1),  // 512-glyph PSF2, ice colours
+        st(1, 4, false, 0),  // 0xD801 glyphs
+        st(1, 6, false, 6),  // 0xE000 glyphs, insert mode + margins
+        st(2, 7, false, 56), // 0x10000 glyphs, left/right margins + origin mode + Unicode buffer
+        st(0, 8, false, 0),  // 0x20000 glyphs in slot 0 (what a fresh caret uses), nothing selected
+        st(0, 0, false, 63), // no font, every mode
+    ]
+}
+
+const STATE_WINDOWS: &[(u64, u64)] = &[(0xF8, 0x108), (0x1F8, 0x208), (0xD700, 0xE100), (0xFFF8, 0x1_0008), (0x1_FFF8, 0x2_0008), (0x10_FFF8, 0x11_0008)];
+/// the DCS route costs ~100 KB of stream per case: narrow windows
+const STATE_WINDOWS_DCS: &[(u64, u64)] = &[(0xD7F8, 0xD808), (0xDBF8, 0xDC08), (0xDFF8, 0xE008)];
+
+// ------------------------------------------------------------------------------------------------
 // (i) DECFRA
 // ------------------------------------------------------------------------------------------------
 
@@ -234,6 +401,8 @@ struct Decfra {
     /// what precedes / follows the control function (index into PRE / POST)
     pre: u8,
     post: u8,
+    #[serde(default)]
+    state: TermState,
 }
 
 const PRE: &[&[u8]] = &[b"", b"\x1b[1;33;44m", b"abc\r\ndef", b"\x1b[5;10H\x1b[4h", b"\x1b[38;2;1;2;3m\x1b[0;40 D"];
@@ -265,11 +434,11 @@ fn decfra_strategy() -> BoxedStrategy<Decfra> {
     let row = prop_oneof![5 => 1u16..=25, 1 => 0u16..=30, 1 => Just(9999u16)];
     let col = prop_oneof![5 => 1u16..=80, 1 => 0u16..=90, 1 => Just(9999u16)];
     // edges are ordered (top <= bottom, left <= right) unless `swapped`
-    (pc, row.clone(), col.clone(), row, col, prop::bool::weighted(0.1), 0u8..=1, prop_oneof![3 => Just(0u8), 2 => 1u8..PRE.len() as u8], prop_oneof![3 => Just(0u8), 2 => 1u8..POST.len() as u8])
-        .prop_map(|(pc, r1, c1, r2, c2, swapped, shape, pre, post)| {
+    (pc, row.clone(), col.clone(), row, col, prop::bool::weighted(0.1), 0u8..=1, prop_oneof![3 => Just(0u8), 2 => 1u8..PRE.len() as u8], prop_oneof![3 => Just(0u8), 2 => 1u8..POST.len() as u8], term_state(5))
+        .prop_map(|(pc, r1, c1, r2, c2, swapped, shape, pre, post, state)| {
             let (pt, pb) = if (r1 <= r2) != swapped { (r1, r2) } else { (r2, r1) };
             let (pl, pr) = if (c1 <= c2) != swapped { (c1, c2) } else { (c2, c1) };
-            Decfra { pc, pt, pl, pb, pr, shape, pre, post }
+            Decfra { pc, pt, pl, pb, pr, shape, pre, post, state }
         })
         .boxed()
 }
@@ -277,27 +446,39 @@ fn decfra_strategy() -> BoxedStrategy<Decfra> {
 fn check_decfra(c: &Decfra) -> Verdict {
     let (mut buf, mut caret) = stream::make_terminal(80, 25, c.shape);
     let mut parser = ansi::Parser::default();
+    let how = state_apply(&c.state, &mut parser, &mut buf, &mut caret);
+    let v = check_decfra_in(c, &how, &mut parser, &mut buf, &mut caret);
+    state_release(&c.state, &mut buf);
+    v
+}
+
+fn check_decfra_in(c: &Decfra, how: &str, parser: &mut ansi::Parser, buf: &mut Buffer, caret: &mut icy_engine::Caret) -> Verdict {
+    let key_state = state_key(&c.state);
+    let how = if how.is_empty() { String::new() } else { format!(" [terminal state: {how}]") };
+    if let Some(b) = scan_buffer_cells(buf).first() {
+        return Verdict::fail(format!("invalid_char.cell|source=term_state{key_state}"), format!("after setting up the terminal state{how}: {}", b.describe()));
+    }
     let (data, post) = decfra_stream(c);
-    let mut errs = feed(&mut parser, &mut buf, &mut caret, &data);
-    let bad = scan_buffer_cells(&buf);
+    let mut errs = feed(parser, buf, caret, &data);
+    let bad = scan_buffer_cells(buf);
     if let Some(b) = bad.first() {
         // what the invalid value does to later, harmless input (message only; the key is the stored value)
-        let after = match feed_caught(&mut parser, &mut buf, &mut caret, post) {
+        let after = match feed_caught(parser, buf, caret, post) {
             Err(p) if !post.is_empty() => format!("; feeding \"{}\" afterwards: {p}", escape(post)),
             _ => String::new(),
         };
         return Verdict::fail(
-            "invalid_char.cell|source=decfra",
-            format!("after the stream \"{}\" on an 80x25 terminal: {} ({} such cells seen; fill parameter {} = {:#x}){after}", escape(&data), b.describe(), bad.len(), c.pc, c.pc),
+            format!("invalid_char.cell|source=decfra{key_state}"),
+            format!("after the stream \"{}\" on an 80x25 terminal{how}: {} ({} such cells seen; fill parameter {} = {:#x}){after}", escape(&data), b.describe(), bad.len(), c.pc, c.pc),
         );
     }
-    errs += feed(&mut parser, &mut buf, &mut caret, post);
-    if let Some(b) = scan_buffer_cells(&buf).first() {
-        return Verdict::fail("invalid_char.cell|source=decfra", format!("after the stream \"{}{}\" on an 80x25 terminal: {}", escape(&data), escape(post), b.describe()));
+    errs += feed(parser, buf, caret, post);
+    if let Some(b) = scan_buffer_cells(buf).first() {
+        return Verdict::fail(format!("invalid_char.cell|source=decfra{key_state}"), format!("after the stream \"{}{}\" on an 80x25 terminal{how}: {}", escape(&data), escape(post), b.describe()));
     }
     for (which, s) in [("parse_string", &parser.parse_string), ("macro_dcs", &parser.macro_dcs)] {
         if let Some(e) = utf8_err(s) {
-            return Verdict::fail(format!("invalid_utf8.{which}|source=decfra"), format!("after the stream \"{}\": parser.{which} is not UTF-8: {e}", escape(&data)));
+            return Verdict::fail(format!("invalid_utf8.{which}|source=decfra{key_state}"), format!("after the stream \"{}\"{how}: parser.{which} is not UTF-8: {e}", escape(&data)));
         }
     }
     // own model of the addressed rectangle (the engine clamps each edge into 1..=25 / 1..=80)
@@ -315,7 +496,10 @@ fn check_decfra(c: &Decfra) -> Verdict {
     } else {
         ""
     };
-    Verdict::pass(class != "scalar" && nonempty, format!("decfra:{class}{}{filled}{}", if nonempty { "" } else { "+empty_rect" }, if errs > 0 { "+err" } else { "" }))
+    Verdict::pass(
+        class != "scalar" && nonempty,
+        format!("decfra:{}:{class}{}{filled}{}", state_class(&c.state), if nonempty { "" } else { "+empty_rect" }, if errs > 0 { "+err" } else { "" }),
+    )
 }
 
 // ------------------------------------------------------------------------------------------------
@@ -982,6 +1166,8 @@ struct MacroCase {
     lower: bool,
     body: Vec<MacroItem>,
     invoke: u8,
+    #[serde(default)]
+    state: TermState,
 }
 
 fn macro_stream(c: &MacroCase) -> Vec<u8> {
@@ -1030,16 +1216,25 @@ fn macro_strategy() -> BoxedStrategy<MacroCase> {
         // byte runs that would decode to a surrogate / a value above 0x10FFFF / nothing if the body were ever taken for UTF-8
         1 => (1u8..=2, prop::sample::select(BAD_UTF8.to_vec())).prop_map(|(n, b)| MacroItem::Repeat(n, b.to_vec())),
     ];
-    (prop_oneof![3 => 0u8..=3, 1 => 0u8..=63], prop::bool::weighted(0.75), any::<bool>(), vec(item, 0..=12), prop_oneof![1 => Just(0u8), 6 => Just(1u8), 2 => Just(2u8)])
-        .prop_map(|(id, hex, lower, body, invoke)| MacroCase { id, hex, lower, body, invoke })
+    (prop_oneof![3 => 0u8..=3, 1 => 0u8..=63], prop::bool::weighted(0.75), any::<bool>(), vec(item, 0..=12), prop_oneof![1 => Just(0u8), 6 => Just(1u8), 2 => Just(2u8)], term_state(12))
+        .prop_map(|(id, hex, lower, body, invoke, state)| MacroCase { id, hex, lower, body, invoke, state })
         .boxed()
 }
 
+const MACRO_TABLE_BASE: u64 = 1024 + 2 * BAD_UTF8.len() as u64;
+
+/// the byte table, once per state: fresh; 0xE000-glyph font selected + insert mode + margins; Unicode buffer + every mode
 fn macro_table(i: u64) -> MacroCase {
+    let state = match i / MACRO_TABLE_BASE {
+        0 => TermState::default(),
+        1 => TermState { slot: 1, font: 6, dcs: false, modes: 6 },
+        _ => TermState { slot: 0, font: 0, dcs: false, modes: 63 },
+    };
+    let i = i % MACRO_TABLE_BASE;
     if i >= 1024 {
         let j = (i - 1024) as usize;
         let body = vec![MacroItem::Byte(b'<'), MacroItem::Repeat(1, BAD_UTF8[j % BAD_UTF8.len()].to_vec()), MacroItem::Byte(b'>')];
-        return MacroCase { id: 2, hex: j < BAD_UTF8.len(), lower: false, body, invoke: 1 };
+        return MacroCase { id: 2, hex: j < BAD_UTF8.len(), lower: false, body, invoke: 1, state };
     }
     let b = (i % 256) as u8;
     let variant = i / 256;
@@ -1047,7 +1242,7 @@ fn macro_table(i: u64) -> MacroCase {
         2 => vec![MacroItem::Byte(b'<'), MacroItem::Repeat(3, vec![b]), MacroItem::Byte(b'>')],
         _ => vec![MacroItem::Byte(b'<'), MacroItem::Byte(b), MacroItem::Byte(b'>')],
     };
-    MacroCase { id: 1, hex: variant != 3, lower: variant == 1, body, invoke: 1 }
+    MacroCase { id: 1, hex: variant != 3, lower: variant == 1, body, invoke: 1, state }
 }
 
 fn macro_high_bytes(c: &MacroCase) -> usize {
@@ -1069,15 +1264,27 @@ fn macro_high_bytes(c: &MacroCase) -> usize {
 fn check_macro(c: &MacroCase) -> Verdict {
     let (mut buf, mut caret) = stream::make_terminal(80, 25, 0);
     let mut parser = ansi::Parser::default();
+    let how = state_apply(&c.state, &mut parser, &mut buf, &mut caret);
+    let v = check_macro_in(c, &how, &mut parser, &mut buf, &mut caret);
+    state_release(&c.state, &mut buf);
+    v
+}
+
+fn macro_src(c: &MacroCase) -> String {
+    format!("{}{}", if c.hex { "hex_macro" } else { "text_macro" }, state_key(&c.state))
+}
+
+fn check_macro_in(c: &MacroCase, how: &str, parser: &mut ansi::Parser, buf: &mut Buffer, caret: &mut icy_engine::Caret) -> Verdict {
+    let how = if how.is_empty() { String::new() } else { format!(" [terminal state: {how}]") };
     let data = macro_stream(c);
-    let fed = feed_caught(&mut parser, &mut buf, &mut caret, &data);
-    let src = if c.hex { "hex_macro" } else { "text_macro" };
-    if let Some(b) = scan_buffer_cells(&buf).first() {
-        return Verdict::fail(format!("invalid_char.cell|source={src}"), format!("after defining and invoking a macro (stream \"{}\"): {}", escape(&data), b.describe()));
+    let fed = feed_caught(parser, buf, caret, &data);
+    let src = macro_src(c);
+    if let Some(b) = scan_buffer_cells(buf).first() {
+        return Verdict::fail(format!("invalid_char.cell|source={src}"), format!("after defining and invoking a macro (stream \"{}\"){how}: {}", escape(&data), b.describe()));
     }
     for (which, s) in [("parse_string", &parser.parse_string), ("macro_dcs", &parser.macro_dcs)] {
         if let Some(e) = utf8_err(s) {
-            return Verdict::fail(format!("invalid_utf8.{which}|source={src}"), format!("after the stream \"{}\": parser.{which} is not UTF-8: {e}", escape(&data)));
+            return Verdict::fail(format!("invalid_utf8.{which}|source={src}"), format!("after the stream \"{}\"{how}: parser.{which} is not UTF-8: {e}", escape(&data)));
         }
     }
     let errs = match fed {
@@ -1088,7 +1295,10 @@ fn check_macro(c: &MacroCase) -> Verdict {
     let high = macro_high_bytes(c);
     let printed = buf.layers[0].lines.iter().any(|l| !l.chars.is_empty());
     let nt = high > 0 && c.invoke > 0;
-    Verdict::pass(nt, format!("{src}:{}{}{}", if high > 0 { "high_bytes" } else { "ascii" }, if printed { "+printed" } else { "" }, if errs > 0 { "+err" } else { "" }))
+    Verdict::pass(
+        nt,
+        format!("{}:{}:{}{}{}", if c.hex { "hex_macro" } else { "text_macro" }, state_class(&c.state), if high > 0 { "high_bytes" } else { "ascii" }, if printed { "+printed" } else { "" }, if errs > 0 { "+err" } else { "" }),
+    )
 }
 
 // ------------------------------------------------------------------------------------------------
@@ -1124,15 +1334,36 @@ fn main() {
         move |i| {
             let pc = window_value(&ws, i / 2);
             if i % 2 == 0 {
-                Decfra { pc, pt: 1, pl: 1, pb: 2, pr: 3, shape: 0, pre: 0, post: 0 }
+                Decfra { pc, pt: 1, pl: 1, pb: 2, pr: 3, shape: 0, pre: 0, post: 0, state: TermState::default() }
             } else {
-                Decfra { pc, pt: 24, pl: 78, pb: 25, pr: 80, shape: 1, pre: 1, post: 2 }
+                Decfra { pc, pt: 24, pl: 78, pb: 25, pr: 80, shape: 1, pre: 1, post: 2, state: TermState::default() }
             }
         },
         check_decfra,
-        |_| "source=decfra".to_string(),
+        |c| format!("source=decfra{}", state_key(&c.state)),
     );
-    eng.generated_with_class(PartCfg::new("decfra", 240_000, 2_500_000).isolated().heap_cap(512 << 20).shrink_budget(400), decfra_strategy, check_decfra, |_| "source=decfra".to_string());
+    // the boundary windows again for every terminal state of the table (fonts of 256 / 512 / 0xD801 / 0xE000 / 2^16 / 2^17 glyphs in the
+    // caret's slot, modes), plus one state whose font travels as a DCS (narrow windows)
+    let states = table_states();
+    let per_state = window_total(STATE_WINDOWS);
+    let n_states = states.len() as u64;
+    eng.enumerated_with_class(
+        PartCfg::new("decfra_states", 0, 0).isolated().heap_cap(512 << 20).shrink_budget(400).exhaustive(true).threads(1),
+        n_states * per_state + window_total(STATE_WINDOWS_DCS),
+        move |i| {
+            if i < n_states * per_state {
+                // value-major order: consecutive cases use different states (the fonts are pooled per worker)
+                let state = states[(i % n_states) as usize].clone();
+                Decfra { pc: window_value(STATE_WINDOWS, i / n_states), pt: 1, pl: 1, pb: 2, pr: 3, shape: 0, pre: 0, post: 0, state }
+            } else {
+                let state = TermState { slot: 1, font: 5, dcs: true, modes: 0 };
+                Decfra { pc: window_value(STATE_WINDOWS_DCS, i - n_states * per_state), pt: 2, pl: 2, pb: 2, pr: 3, shape: 1, pre: 0, post: 0, state }
+            }
+        },
+        check_decfra,
+        |c| format!("source=decfra{}", state_key(&c.state)),
+    );
+    eng.generated_with_class(PartCfg::new("decfra", 240_000, 2_500_000).isolated().heap_cap(512 << 20).shrink_budget(400), decfra_strategy, check_decfra, |c| format!("source=decfra{}", state_key(&c.state)));
 
     // (ii) clipboard
     eng.enumerated_with_class(PartCfg::new("clipboard_u16", 0, 0).isolated().heap_cap(512 << 20).shrink_budget(400).exhaustive(true).threads(1), 1 << 16, clip_enumerated, check_clip, |_| "source=clipboard".to_string());
@@ -1146,13 +1377,11 @@ fn main() {
     eng.enumerated_with_class(PartCfg::new("font_table", 0, 0).isolated().heap_cap(512 << 20).shrink_budget(400).exhaustive(true).threads(4), FONT_COUNTS.len() as u64 * 9, font_table, check_font, |c| {
         format!("source={}", FONT_FMT[(c.fmt % 4) as usize])
     });
-    eng.generated_with_class(PartCfg::new("fonts", 6_000, 40_000).isolated().heap_cap(512 << 20).shrink_budget(400).timeout_ms(60_000), font_strategy, check_font, |c| format!("source={}", FONT_FMT[(c.fmt % 4) as usize]));
+    eng.generated_with_class(PartCfg::new("fonts", 3_500, 40_000).isolated().heap_cap(512 << 20).shrink_budget(400).timeout_ms(60_000), font_strategy, check_font, |c| format!("source={}", FONT_FMT[(c.fmt % 4) as usize]));
 
     // (v) macros
-    eng.enumerated_with_class(PartCfg::new("macro_bytes", 0, 0).isolated().heap_cap(512 << 20).shrink_budget(400).exhaustive(true).threads(1), 1024 + 2 * BAD_UTF8.len() as u64, macro_table, check_macro, |c| {
-        format!("source={}", if c.hex { "hex_macro" } else { "text_macro" })
-    });
-    eng.generated_with_class(PartCfg::new("macros", 100_000, 1_000_000).isolated().heap_cap(512 << 20).shrink_budget(400), macro_strategy, check_macro, |c| format!("source={}", if c.hex { "hex_macro" } else { "text_macro" }));
+    eng.enumerated_with_class(PartCfg::new("macro_bytes", 0, 0).isolated().heap_cap(512 << 20).shrink_budget(400).exhaustive(true).threads(1), 3 * MACRO_TABLE_BASE, macro_table, check_macro, |c| format!("source={}", macro_src(c)));
+    eng.generated_with_class(PartCfg::new("macros", 100_000, 1_000_000).isolated().heap_cap(512 << 20).shrink_budget(400), macro_strategy, check_macro, |c| format!("source={}", macro_src(c)));
 
     eng.run();
 }
